@@ -32,8 +32,8 @@ Fixpoint map2 {A B C} (f : A -> B -> C) (a : list A) (b : list B) : list C :=
 
 Section Model.
   Context {T : Type} (O : Ops T).
-  Local Notation "0" := (o0 O).
-  Local Notation "1" := (o1 O).
+  Local Notation zero := (o0 O).
+  Local Notation one := (o1 O).
   Local Infix "+" := (oadd O).
   Local Infix "-" := (osub O).
   Local Infix "*" := (omul O).
@@ -45,7 +45,7 @@ Section Model.
   Definition cst (z : Z) : T := oofZ O z.
   Definition two : T := cst 2.
   Definition three : T := cst 3.
-  Definition half : T := 1 / two.
+  Definition half : T := one / two.
 
   (* f64::max / f64::min: the non-NaN operand if one is NaN *)
   Definition rmax (a b : T) : T := if a <? b then b else if b <=? a then a else if a =? a then a else b.
@@ -54,7 +54,7 @@ Section Model.
   Definition cube (a : T) : T := (a * a) * a.
   Definition is_finite (a : T) : bool := (a - a) =? 0.
   Definition is_infinite (a : T) : bool := negb (is_finite a) && (a =? a).
-  Definition nan : T := 0 / 0.   (* NaN on binary64; never inspected by a theorem *)
+  Definition nan : T := zero / 0.   (* NaN on binary64; never inspected by a theorem *)
 
   (* ---------------------------------------------------------------- vectors *)
   Definition vdot (a b : list T) : T := fold_left (fun acc xy => acc + fst xy * snd xy) (combine a b) 0.
@@ -64,15 +64,15 @@ Section Model.
   Definition vsum (a : list T) : T := fold_left (fun acc x => acc + x) a 0.
   Definition norm_inf (a : list T) : T := fold_left (fun acc x => rmax acc (oabs O x)) a 0.
   Definition max_diff (a b : list T) : T := fold_left (fun acc x => rmax acc (oabs O x)) (vsub a b) 0.
-  Definition zeros (n : nat) : list T := repeat 0 n.
+  Definition zeros (n : nat) : list T := repeat zero n.
 
   (* ---------------------------------------------------------------- math/num.rs *)
-  Definition ln_1pe (x : T) : T := if cst 15 <? x then x else oln O (1 + oexp O x).
+  Definition ln_1pe (x : T) : T := if cst 15 <? x then x else oln O (one + oexp O x).
   Definition sigmoid (x : T) : T :=
-    if x <? - (cst 40) then 0 else if cst 40 <? x then 1 else 1 / (1 + oexp O (- x)).
+    if x <? - (cst 40) then zero else if cst 40 <? x then one else one / (one + oexp O (- x)).
 
   (* dense_matrix.rs softmax_mut (after fix D5: shift by max x) on one row *)
-  Definition vmax (l : list T) : T := match l with [] => 0 | h :: t => fold_left rmax t h end.
+  Definition vmax (l : list T) : T := match l with [] => zero | h :: t => fold_left rmax t h end.
   Definition softmax (l : list T) : list T :=
     let m := vmax l in
     let ps := map (fun x => oexp O (x - m)) l in
@@ -84,10 +84,10 @@ Section Model.
     match l with
     | [] => best_pos
     | v :: t =>
-        let better := match best with None => is_finite v || (0 <? v) | Some b => b <? v end in
+        let better := match best with None => is_finite v || (zero <? v) | Some b => b <? v end in
         if better then argmax_from t (S pos) (Some v) pos else argmax_from t (S pos) best best_pos
     end.
-  Definition argmax (l : list T) : nat := argmax_from l 0 None 0.
+  Definition argmax (l : list T) : nat := argmax_from l zero None 0.
 
   (* unique(): sort + dedup *)
   Fixpoint ins_uniq (v : T) (l : list T) : list T :=
@@ -107,10 +107,10 @@ Section Model.
   Fixpoint pdot_loop (acc : T) (xs : list T) (w : list T) (pos : nat) : T :=
     match xs with
     | [] => acc
-    | x :: xs' => pdot_loop (acc + x * nth pos w 0) xs' w (S pos)
+    | x :: xs' => pdot_loop (acc + x * nth pos w zero) xs' w (S pos)
     end.
   Definition partial_dot (w row : list T) (v_col : nat) : T :=
-    pdot_loop 0 row w v_col + nth (length row + v_col)%nat w 0.
+    pdot_loop zero row w v_col + nth (length row + v_col)%nat w 0.
 
   Definition ofnat (n : nat) : T := oofnat O n.
 
@@ -120,17 +120,17 @@ Section Model.
     (half * alpha) * fold_left (fun acc w => acc + w * w) ws 0.
 
   Definition binary_f_gen (lse : T -> T) (p : nat) (x : list (list T)) (y : list nat) (alpha : T) (w : list T) : T :=
-    let f := fold_left (fun acc ry => let wx := partial_dot w (fst ry) 0 in
-                                     acc + (lse wx - ofnat (snd ry) * wx)) (combine x y) 0 in
-    if 0 <? alpha then f + penalty alpha (firstn p w) else f.
+    let f := fold_left (fun acc ry => let wx := partial_dot w (fst ry) zero in
+                                     acc + (lse wx - ofnat (snd ry) * wx)) (combine x y) zero in
+    if zero <? alpha then f + penalty alpha (firstn p w) else f.
 
   (* one entry of the gradient: j < p a weight, j = p the bias *)
   Definition binary_df_entry (sg : T -> T) (p : nat) (x : list (list T)) (y : list nat) (alpha : T) (w : list T) (j : nat) : T :=
     let g := fold_left (fun acc ry =>
-                          let wx := partial_dot w (fst ry) 0 in
+                          let wx := partial_dot w (fst ry) zero in
                           let dyi := ofnat (snd ry) - sg wx in
-                          if (j <? p)%nat then acc - dyi * nth j (fst ry) 0 else acc - dyi) (combine x y) 0 in
-    if (0 <? alpha) && (j <? p)%nat then g + alpha * nth j w 0 else g.
+                          if (j <? p)%nat then acc - dyi * nth j (fst ry) zero else acc - dyi) (combine x y) zero in
+    if (zero <? alpha) && (j <? p)%nat then g + alpha * nth j w zero else g.
   Definition binary_df_gen (sg : T -> T) (p : nat) x y alpha w : list T :=
     map (binary_df_entry sg p x y alpha w) (seq 0 (S p)).
 
@@ -142,12 +142,12 @@ Section Model.
 
   Definition multi_penalty (p k : nat) (alpha : T) (w : list T) : T :=
     (half * alpha) *
-    fold_left (fun acc i => fold_left (fun acc2 j => let wi := nth (i * S p + j)%nat w 0 in acc2 + wi * wi) (seq 0 p) acc)
+    fold_left (fun acc i => fold_left (fun acc2 j => let wi := nth (i * S p + j)%nat w zero in acc2 + wi * wi) (seq 0 p) acc)
               (seq 0 k) 0.
 
   Definition multi_f_gen (sm : list T -> list T) (p k : nat) (x : list (list T)) (y : list nat) (alpha : T) (w : list T) : T :=
-    let f := fold_left (fun acc ry => acc - oln O (nth (snd ry) (sm (scores p k w (fst ry))) 0)) (combine x y) 0 in
-    if 0 <? alpha then f + multi_penalty p k alpha w else f.
+    let f := fold_left (fun acc ry => acc - oln O (nth (snd ry) (sm (scores p k w (fst ry))) zero)) (combine x y) zero in
+    if zero <? alpha then f + multi_penalty p k alpha w else f.
 
   (* entry q = j*(p+1) + l of the gradient *)
   Definition multi_df_entry (sm : list T -> list T) (p k : nat) (x : list (list T)) (y : list nat) (alpha : T) (w : list T) (q : nat) : T :=
@@ -155,9 +155,9 @@ Section Model.
     let l := (q mod S p)%nat in
     let g := fold_left (fun acc ry =>
                           let prob := sm (scores p k w (fst ry)) in
-                          let yi := (if Nat.eqb (snd ry) j then 1 else 0) - nth j prob 0 in
-                          if (l <? p)%nat then acc - yi * nth l (fst ry) 0 else acc - yi) (combine x y) 0 in
-    if (0 <? alpha) && (l <? p)%nat then g + alpha * nth q w 0 else g.
+                          let yi := (if Nat.eqb (snd ry) j then one else zero) - nth j prob zero in
+                          if (l <? p)%nat then acc - yi * nth l (fst ry) zero else acc - yi) (combine x y) zero in
+    if (zero <? alpha) && (l <? p)%nat then g + alpha * nth q w zero else g.
   Definition multi_df_gen sm (p k : nat) x y alpha w : list T :=
     map (multi_df_entry sm p k x y alpha w) (seq 0 (k * S p)).
 
@@ -178,13 +178,13 @@ Section Model.
   Definition bt_quad (f0 df0 a2 fx1 : T) : T :=
     (- (df0 * sq a2)) / (two * ((fx1 - f0) - df0 * a2)).
   Definition bt_cubic (eps f0 df0 a1 a2 fx0 fx1 : T) : T :=
-    let dv := 1 / ((sq a1 * sq a2) * (a2 - a1)) in
+    let dv := one / ((sq a1 * sq a2) * (a2 - a1)) in
     let t1 := (fx1 - f0) - df0 * a2 in
     let t0 := (fx0 - f0) - df0 * a1 in
     let a := (sq a1 * t1 - sq a2 * t0) * dv in
     let b := ((- (cube a1)) * t1 + cube a2 * t0) * dv in
-    if osqrt O (sq (a - 0)) <=? eps then df0 / (two * b)
-    else let d := rmax (sq b - (three * a) * df0) 0 in
+    if osqrt O (sq (a - zero)) <=? eps then df0 / (two * b)
+    else let d := rmax (sq b - (three * a) * df0) zero in
          ((- b) + osqrt O d) / (three * a).
 
   (* fuel = max_iterations + 1 loop bodies are allowed, the next one panics *)
@@ -222,13 +222,13 @@ Section Model.
   Definition tl_loop1 (rho : list T) (dxh dgh : list (list T)) (idxs : list nat) (q : list T) (al : list T)
     : list T * list T :=
     fold_left (fun qa i =>
-                 let a := nth i rho 0 * vdot (nth i dxh []) (fst qa) in
+                 let a := nth i rho zero * vdot (nth i dxh []) (fst qa) in
                  (vsub (fst qa) (vscale (nth i dgh []) a), upd (snd qa) i a))
               (rev idxs) (q, al).
   Definition tl_loop2 (rho : list T) (dxh dgh : list (list T)) (idxs : list nat) (al : list T) (s : list T) : list T :=
     fold_left (fun s i =>
-                 let beta := nth i rho 0 * vdot (nth i dgh []) s in
-                 vadd s (vscale (nth i dxh []) (nth i al 0 - beta)))
+                 let beta := nth i rho zero * vdot (nth i dgh []) s in
+                 vadd s (vscale (nth i dxh []) (nth i al zero - beta)))
               idxs s.
   Definition tl_scaling (dxi dgi : list T) : T :=
     vdot dxi dgi / fold_left (fun acc v => acc + sq (oabs O v)) dgi 0.
@@ -243,10 +243,10 @@ Section Model.
               | S it => let i := (it mod m)%nat in vscale q (tl_scaling (nth i dxh []) (nth i dgh []))
               end in
     let s := tl_loop2 rho dxh dgh idxs al' s0 in
-    (vscale s (- 1), al').
+    (vscale s (- one), al').
 
   Definition init_state (m : nat) (x : list T) : lb_state :=
-    mkSt x x nan nan x x (repeat 0 m) (repeat x m) (repeat x m) x (repeat 0 m) O O x 1.
+    mkSt x x nan nan x x (repeat zero m) (repeat x m) (repeat x m) x (repeat zero m) O O x 1.
 
   Section Objective.
     Variable f : list T -> T.
@@ -261,7 +261,7 @@ Section Model.
       let f_prev := f x in
       let df0 := vdot (st_g st) s in
       let phi := fun a => f (vadd (vscale s a) x) in
-      match bt_search B phi 1 f_prev df0 with
+      match bt_search B phi one f_prev df0 with
       | None => None
       | Some (alpha, _) =>
           let dx := vscale s alpha in
@@ -284,7 +284,7 @@ Section Model.
 
     Definition update_hessian (st : lb_state) : lb_state :=
       let dg := vsub (st_g st) (st_g_prev st) in
-      let rho_it := 1 / vdot (st_dx st) dg in
+      let rho_it := one / vdot (st_dx st) dg in
       if is_infinite rho_it then st
       else
         let idx := (st_iter st mod lb_m L)%nat in
@@ -342,22 +342,22 @@ Section Model.
     else if Nat.eqb k 2 then
       match optimize (binary_f p x yi alpha) (binary_df p x yi alpha) L B (zeros (S p)) with
       | None => None
-      | Some (st, _, _) => Some (mkLr [firstn p (st_x st)] [nth p (st_x st) 0] classes k)
+      | Some (st, _, _) => Some (mkLr [firstn p (st_x st)] [nth p (st_x st) zero] classes k)
       end
     else
       match optimize (multi_f p k x yi alpha) (multi_df p k x yi alpha) L B (zeros (k * S p)) with
       | None => None
       | Some (st, _, _) =>
           let rows := split_rows p k (st_x st) in
-          Some (mkLr (map (firstn p) rows) (map (fun r => nth p r 0) rows) classes k)
+          Some (mkLr (map (firstn p) rows) (map (fun r => nth p r zero) rows) classes k)
       end.
 
   (* class index chosen for one query row *)
   Definition predict_index (M : lr_model) (row : list T) : nat :=
     if Nat.eqb (lr_k M) 2 then
-      if half <? sigmoid (vdot row (nth O (lr_coef M) []) + nth O (lr_intercept M) 0) then 1%nat else O
+      if half <? sigmoid (vdot row (nth O (lr_coef M) []) + nth O (lr_intercept M) zero) then 1%nat else O
     else
       argmax (map2 (fun c b => vdot row c + b) (lr_coef M) (lr_intercept M)).
   Definition lr_predict (M : lr_model) (x : list (list T)) : list T :=
-    map (fun row => nth (predict_index M row) (lr_classes M) 0) x.
+    map (fun row => nth (predict_index M row) (lr_classes M) zero) x.
 End Model.
